@@ -77,7 +77,11 @@ def run(ctx, rep):
         if info is not None:
             check_line_recogniser(ctx, cq, info, rl, rc, rg)
     rb = rep.rule("bpm", "bpm = int(raw_bpm)/1000 (single rounding); validator cannot reject it", floor=2)
-    check_bpm_value(ctx, rb, Timing(ctx))
+    T_ = Timing(ctx)
+    check_bpm_value(ctx, rb, T_)
+    rac = rep.rule("accepted", "a decoded tempo line is rejected by its builder only for a tick that does not exceed its predecessor's: no "
+                               "other condition can refuse a written value", floor=2)
+    T_.check_accumulate(rac, rac)
     rt = rep.rule("ts", "time signature numerals", floor=1)
     check_ts_numerals(ctx, rt)
     ra = rep.rule("anchor", "anchor microseconds", floor=1)
